@@ -91,6 +91,12 @@ func VH_C14_contain() {
 	ci := CopyInfo{CopyDirContents: v.Bool("dir-contents"), AlwaysReplaceExistingDestPaths: v.Bool("always-replace")}
 	if mode != 1 {
 		ci.FollowLinks = v.Bool("follow")
+		if v.Bool("mode-option") {
+			// a numeric mode requested for everything copied (it must never reach a link's target)
+			perm := 0751
+			ci.Mode = &perm
+			v.Cover("mode-option")
+		}
 	}
 	err := Copy(context.Background(), src, srcPath, dst, dstPath, WithCopyInfo(ci))
 	v.Observe("failed", err != nil)
